@@ -14,6 +14,7 @@ func init() {
 		Explanation: "Decides the ordering half of 'readable immediately after a successful write' for the cached directory listings of storage/filesystem/dotgit: (invalidate-after-publish) in " +
 			"ObjectWriter.save and PackWriter.save every return after the rename that puts the file in place passes a call of the writer's `published` hook; DotGit.NewObject/NewObjectPack install a hook that " +
 			"drops the matching listing (objectMap / packMap) and are the only constructors' callers; ObjectDelete and DeleteOldObjectPackAndIndex drop the listing after the removal (a deferred drop registered before it counts); " +
+			"(listing-filled-in-one-critical-section) a function that fills a cached listing scans the directory and stores the result in one critical section of listMu — a scan outside it can be stored after a writer's drop and hide what the writer published; " +
 			"(listing-snapshot) every reader of the listings obtains list and set from objectListing/packListing in one locked step (no separate generate-then-read); " +
 			"(notify-publishes-index) the pack writer's Notify callback installed by ObjectStorage publishes s.index[h] and s.packs under muI, every pack writer ObjectStorage hands out carries that callback, and PackWriter.Close calls Notify only for a finished index. " +
 			"(cached-slice-not-handed-out) an exported method of DotGit / ObjectStorage returns a cached slice field (directly, through a local, or through an unexported helper's result; fixpoint over the type's methods) only as a full slice " +
@@ -210,6 +211,8 @@ func runC18(c *Ctx) {
 		c.Check(ok, r1, fi.Name()+":drop-after-remove", fi.Decl.Pos(), orStr(why, "the listing is dropped after every removal"))
 	}
 	c.Floor(r1, 8)
+
+	checkListingFilledUnderLock(c, "listing-filled-in-one-critical-section")
 
 	// listing-snapshot: the map/list fields are read only inside objectListing / packListing and the drop functions
 	const r2 = "listing-snapshot"
